@@ -47,12 +47,12 @@ void UncompressedFile::read(char * s, std::streamsize n) {
     tellpChanged.wait(lock, sufficientData);
     m_demand = 0;
 
-    /* handle read behind eof */
+    /* handle read behind eof (like an iostream the failure persists: a later read that fits,
+     * e.g. of zero bytes, must not make an object that was cut off look completely read) */
     if (n + m_tellg > m_fileSize) {
         n = m_fileSize - m_tellg;
         m_rdstate = std::ios_base::eofbit | std::ios_base::failbit;
-    } else
-        m_rdstate = std::ios_base::goodbit;
+    }
 
     /* read data */
     m_gcount = 0;
